@@ -8,7 +8,11 @@ B1 == MapV(<< <<K("p"), IntV(1)>>, <<K("q"), IntV(2)>> >>)
 B2plain == MapV(<< <<K("q"), IntV(3)>>, <<K("r"), IntV(4)>> >>)
 B2nested == MapV(<< <<MergeKey, Alias("b1")>>, <<K("q"), IntV(3)>>, <<K("r"), IntV(4)>> >>)
 B2nestedLate == MapV(<< <<K("q"), IntV(3)>>, <<MergeKey, Alias("b1")>>, <<K("r"), IntV(4)>> >>)
-MergeVals == << Null, Alias("b1"), SeqV(<<Alias("b1"), Alias("b2")>>), SeqV(<<Alias("b2"), Alias("b1")>>), SeqV(<<Alias("b1")>>), Alias("b2") >>   \* Null: no merge entry
+Inline == MapV(<< <<K("q"), IntV(8)>>, <<K("z"), IntV(6)>> >>)                      \* `<<: {q: 8, z: 6}`: the merge-key rules allow a mapping in place
+MergeVals == << Null, Alias("b1"), SeqV(<<Alias("b1"), Alias("b2")>>), SeqV(<<Alias("b2"), Alias("b1")>>), SeqV(<<Alias("b1")>>), Alias("b2"),
+                Inline, SeqV(<<Alias("b1"), Inline>>), SeqV(<<Inline, Alias("b2")>>) >>   \* Null: no merge entry
+\* ill-typed merges (a merge source that is no mapping): no value is defined for them, yq must answer with a result or an error (C11)
+IllMergeVals == << Alias("sc"), Alias("sq"), Alias("nn"), IntV(5), SeqV(<<Alias("b1"), Alias("sc")>>), SeqV(<<IntV(5)>>), SeqV(<<>>), SeqV(<<SeqV(<<Alias("b1")>>)>>), Alias("nowhere") >>
 Explicits == << <<>>, << <<K("q"), IntV(9)>> >>, << <<K("s"), IntV(7)>> >>, << <<K("q"), IntV(9)>>, <<K("s"), IntV(7)>> >>, << <<K("r"), Null>>, <<K("p"), Alias("sc")>> >> >>
 Extras == << <<>>, << <<K("t"), Alias("sc")>>, <<K("u"), Alias("sq")>>, <<K("y"), Alias("nn")>> >>, << <<K("w"), SeqV(<<Alias("sc"), Alias("b1"), IntV(0)>>)>>, <<K("x"), Alias("b2")>> >> >>
 \* position of the merge entry among the explicit entries: 0 = first, 1 = after the first explicit, 9 = last
@@ -28,6 +32,8 @@ Mine == { Doc(B2Of(b2i), MergeVals[mvi], Explicits[e], pos, Extras[x]) : e \in D
 Next == /\ ~done /\ done' = TRUE /\ UNCHANGED <<b2i, mvi>>
         /\ \A d \in Mine : PrintT("@@" \o ToJson([doc |-> d, resolved |-> Resolve(d), paths |-> Paths(Resolve(d)),
                                                    devExplode |-> ResolveDev(d, FALSE), devTraverse |-> ResolveDev(d, TRUE)]))
+        /\ (b2i = 1 /\ mvi = 1) => \A i \in DOMAIN IllMergeVals : \A pos \in {0, 9} :
+              PrintT("@@" \o ToJson([ill |-> TRUE, doc |-> Doc(B2plain, IllMergeVals[i], Explicits[2], pos, Extras[1])]))
 \* laws on the model
 ResolvedIsPlain == \A d \in Mine : WellFormed(d) /\ Plain(Resolve(d)) /\ Resolve(Resolve(d)) = Resolve(d)
 ExplicitWins == \A d \in Mine : LET m == MapGet(d, K("m"))  r == MapGet(Resolve(d), K("m")) IN
